@@ -523,3 +523,30 @@ Example C12_witness_rx :
   wf_C12rx (Some (bs "-"%bs)) rs rp (RAspec RFboth) NSAlways true 0 (bs "CCA-TGAAATA-AC"%bs) = true /\
   find_orfs_rx (Some (bs "-"%bs)) rs rp (RAspec RFboth) NSAlways true 0 (bs "CCA-TGAAATA-AC"%bs) = XOk [mkorf 2 13 true 2].
 Proof. exact (conj eq_refl (conj eq_refl (conj eq_refl eq_refl))). Qed.
+
+(* regular expressions as start/stop, rf without repeated frames: EVERY mode is its specification (spec_always / spec_chain)
+   over the strictly increasing match lists of the frame, mirrored and minlen-filtered, in the requested frame order; for
+   need_start='always' under the one hypothesis that every start match begins before the end of the last residue of its strand
+   (no hypothesis for 'once' / 'never') *)
+Theorem C12_rx_modes_spec : forall gap (rs rp : C13_Rx.rx) r ns need_stop minlen s,
+  nodupz (frames_of r) = true ->
+  (ns = NSAlways -> forall f, Forall (fun a => a < Z.of_nat (last_res_g (gap_set gap) (strand_data s f))) (starts_rx gap rs s f)) ->
+  find_orfs_rx gap rs rp (RAspec r) ns need_stop minlen s =
+  XOk (concat (map (fun f => filter (fun o => o_stop o - o_start o >=? minlen)
+                               (map (mk_orf f (Z.of_nat (length s)))
+                                    (spec_mode ns need_stop (Z.of_nat (frame_start_g (gap_set gap) (strand_data s f) f))
+                                               (Z.of_nat (last_res_g (gap_set gap) (strand_data s f))) (Z.of_nat (length s))
+                                               (starts_rx gap rs s f) (stops_rx gap rp s f))))
+                   (frames_of r))) /\
+  (forall f, StronglySorted Z.lt (starts_rx gap rs s f) /\ StronglySorted Z.lt (stops_rx gap rp s f)).
+Proof. exact (fun gap rs rp r ns need_stop minlen s N H => conj (rx_modes_spec gap rs rp r ns need_stop minlen s N H)
+               (fun f => conj (match hits_rx_sorted gap rs s f with conj A B => sorted_map_fst _ A B end)
+                              (match hits_rx_sorted gap rp s f with conj A B => sorted_map_snd _ A B end))). Qed.
+Print Assumptions C12_rx_modes_spec.
+
+Example C12_witness_rx_modes :
+  nodupz (frames_of RFboth) = true /\
+  (forall f, Forall (fun a => a < Z.of_nat (last_res_g (gap_set (Some (bs "-"%bs))) (strand_data (bs "CCA-TGAAATA-AC"%bs) f)))
+                    (starts_rx (Some (bs "-"%bs)) wit_rs (bs "CCA-TGAAATA-AC"%bs) f)) /\
+  starts_rx (Some (bs "-"%bs)) wit_rs (bs "CCA-TGAAATA-AC"%bs) 2 = [2].
+Proof. exact (conj eq_refl (conj rx_modes_witness eq_refl)). Qed.
